@@ -256,6 +256,31 @@ def rule_template(ctx):
         res.inst(ikey, fn.file, fn.line, "violation")
         res.violate(ikey, "command-line arguments are converted with %s, which returns `%s`: values outside that range do not reach main unchanged "
                     "(parameters are declared %s)" % (conv, rty, proto_ty), fn.file, fn.line)
+    if decl is not None and any(c.get("kind") == "CompoundStmt" for c in decl.get("inner", [])):
+        # the conversion is a helper defined in the template itself: on every path it returns the unchanged result of one call of a
+        # standard conversion to a 64-bit integer, and it never ends the program (every int64 value has to reach main)
+        from .. import cabs
+        ikey2 = "argument-conversion:helper"
+        try:
+            ca = cabs.analyse_function(decl, cfront.functions(ast))
+        except AnalysisError as e:
+            raise AnalysisError("R-TEMPLATE: the conversion helper %s of the driver template: %s" % (conv, e))
+        enders = sorted({e[0] for e in ca.events if e[0] in ("exit", "_exit", "_Exit", "abort", "quick_exit")})
+        badret = []
+        for st in ca.finals:
+            r = st.ret
+            if not (isinstance(r, cabs.Num) and r.tag and r.tag[0] == "call" and r.tag[1] in ("atoll", "strtoll", "strtoimax", "strtol", "atol")):
+                badret.append(repr(r))
+        if enders:
+            res.inst(ikey2, TEMPLATE_C, None, "violation")
+            res.violate(ikey2, "the conversion helper %s of the driver template can end the program (%s) depending on the converted value: some "
+                        "64-bit argument values never reach main" % (conv, ", ".join(enders)), TEMPLATE_C, None)
+        elif badret:
+            res.inst(ikey2, TEMPLATE_C, None, "violation")
+            res.violate(ikey2, "the conversion helper %s of the driver template returns %s on some path, not the unchanged result of a standard "
+                        "conversion of the argument text" % (conv, badret[0]), TEMPLATE_C, None)
+        else:
+            res.inst(ikey2, TEMPLATE_C, None, "ok", "%d paths, all return the result of the standard conversion" % len(ca.finals))
     pt = cfront.tyinfo(proto_ty)
     ikey = "prototype-parameter-type"
     if pt and pt == (True, 64):
